@@ -1101,6 +1101,21 @@ func (w *c05Walker) mapVal(v reflect.Value, consume bool) string {
 	return cApp("VMap", cNi(a), cList(entries))
 }
 
+// a time the validator takes (rules OnTime, /repo bdbfb19): the zero value, or one compact_time's Validate accepts
+func c05TimeValid(ct compact_time.Time) bool {
+	return ct.IsZeroValue() || ct.Validate() == nil
+}
+
+// the printed form of a time as the model carries it: a value Validate rejects is tagged with a leading NUL byte,
+// as evcoq.go does for the event (Model/Rules.v time_token_valid)
+func c05TimeToken(ct compact_time.Time) []byte {
+	tok := []byte(ct.String())
+	if !c05TimeValid(ct) {
+		tok = append([]byte{0}, tok...)
+	}
+	return tok
+}
+
 // struct kinds with their own iterator, else a plain struct
 func (w *c05Walker) structKind(v reflect.Value, consume bool) string {
 	t := v.Type()
@@ -1114,7 +1129,10 @@ func (w *c05Walker) structKind(v reflect.Value, consume bool) string {
 			ct = c05Iface(v).(compact_time.Time)
 		}
 		w.leaf(consume, "tm", func(e Ev) bool { return e.T == ct }, "scalar", "time "+ct.String())
-		return cApp("VTime", zero, cBytes([]byte(ct.String())))
+		if !c05TimeValid(ct) {
+			w.feats["invalid-time"]++
+		}
+		return cApp("VTime", zero, cBytes(c05TimeToken(ct)))
 	case c05TURL:
 		u := c05Iface(v).(url.URL)
 		s := (&u).String()
@@ -2057,6 +2075,8 @@ func (r *c05Run) cause() string {
 		// the refused event is a field name that the same map / record type has already: two fields of the flattened
 		// struct go by one name (an embedded struct's field shadowed by, or colliding with, another field)
 		return "duplicate-flattened-field-name"
+	case r.Rej >= 0 && r.Evs[r.Rej].K == "tm" && !c05TimeValid(r.Evs[r.Rej].T):
+		return "invalid-time" // outside the property: only reached through values marked unsupported
 	case r.Feats["edge"] > 0 && !c05EdgeEmitsEnd():
 		return "edge-no-end"
 	case r.Feats["record-omitted-field"] > 0:
@@ -2470,6 +2490,38 @@ func c05Zoo() []c05ZooEntry {
 		return []interface{}{types.Media{MediaType: "a/b"}, types.Media{MediaType: "A/B", Data: []byte{0}},
 			types.Media{MediaType: "application/vnd.x-y+z", Data: []byte{1, 2, 3}}, &types.Media{MediaType: "a9!#$%&'*+.^_`|~{}-/x.9-Z", Data: []byte{255}}}
 	})
+	// times: the validator takes the zero value and what compact_time's Validate accepts (/repo bdbfb19); the iterator
+	// emits any time.  Valid ones of every type and time zone form, then values Validate rejects (outside the property:
+	// their events must be refused)
+	add("times-valid", func() interface{} {
+		utc := compact_time.TZAtUTC()
+		return []interface{}{compact_time.NewDate(2020, 2, 29), compact_time.NewDate(-500, 12, 31), compact_time.NewTime(23, 59, 60, 999999999, utc),
+			compact_time.NewTime(0, 0, 0, 0, compact_time.TZAtAreaLocation("Europe/Berlin")), compact_time.NewTimestamp(1, 1, 1, 0, 0, 0, 0, utc),
+			compact_time.NewTimestamp(2021, 12, 31, 12, 30, 15, 5, compact_time.TZAtLatLong(5050, -1234)),
+			compact_time.NewTimestamp(1999, 6, 30, 1, 2, 3, 0, compact_time.TZWithMiutesOffsetFromUTC(-90)), compact_time.NewTimestamp(2000, 1, 1, 1, 1, 1, 1, compact_time.TZLocal()),
+			map[compact_time.Time]int{compact_time.NewDate(2001, 1, 1): 1}, time.Date(2020, 1, 2, 3, 4, 5, 6, time.UTC)}
+	})
+	utc := compact_time.TZAtUTC()
+	for i, ct := range []compact_time.Time{
+		compact_time.NewDate(2020, 13, 1), compact_time.NewDate(2020, 0, 1), compact_time.NewDate(2020, 2, 30), compact_time.NewDate(2020, 4, 0), compact_time.NewDate(0, 1, 1),
+		compact_time.NewTime(24, 0, 0, 0, utc), compact_time.NewTime(1, 60, 0, 0, utc), compact_time.NewTime(1, 0, 61, 0, utc), compact_time.NewTime(1, 0, 0, 1000000000, utc),
+		compact_time.NewTimestamp(2020, 13, 1, 0, 0, 0, 0, utc), compact_time.NewTimestamp(2020, 1, 1, 24, 0, 0, 0, utc), compact_time.NewTimestamp(0, 1, 1, 0, 0, 0, 0, utc),
+		compact_time.NewTimestamp(2020, 1, 1, 0, 0, 0, 0, compact_time.TZAtLatLong(9001, 0)), compact_time.NewTimestamp(2020, 1, 1, 0, 0, 0, 0, compact_time.TZAtLatLong(0, 18001)),
+		compact_time.NewTime(1, 1, 1, 0, compact_time.TZWithMiutesOffsetFromUTC(1440)), compact_time.NewTime(1, 1, 1, 0, compact_time.Timezone{Type: compact_time.TimezoneTypeAreaLocation}),
+	} {
+		ct := ct
+		e = add(fmt.Sprintf("time-invalid-%d", i), func() interface{} { return []interface{}{1, ct} })
+		e.Unsupported, e.Reject = true, true
+	}
+	e = add("time-invalid-as-key", func() interface{} { return map[compact_time.Time]int{compact_time.NewDate(2020, 13, 1): 1} })
+	e.Unsupported, e.Reject = true, true
+	e = add("time-invalid-in-struct", func() interface{} {
+		return struct {
+			A int
+			T compact_time.Time
+		}{1, compact_time.NewTimestamp(2020, 1, 1, 24, 0, 0, 0, utc)}
+	})
+	e.Unsupported, e.Reject = true, true
 	for i, mt := range []string{"a", "a/", "/b", "1a/b", "a/b/c", "a b/c", "a/b c", "ä/b", "a/ü", "a\\b", "a/b\x00"} {
 		mt := mt
 		e = add(fmt.Sprintf("media-invalid-type-%d", i), func() interface{} {
@@ -3037,7 +3089,7 @@ func (e *c05ZooEntry) cfgs() []*c05Cfg {
 func c05Record(c *Ctx, cf *caseFile, label string, root interface{}, kc *c05Cfg, unsupported bool, feat string, interior bool, input map[string]string) *c05Run {
 	r := c05Exec(root, kc)
 	if input["must_reject"] == "true" && r.Rej < 0 && r.Panic == "" {
-		c.Fail(Replay{Kind: "reject", Key: "C05/rules-accept/malformed-media-type", Input: input, Expect: "the validator refuses the events of a value with a malformed media type",
+		c.Fail(Replay{Kind: "reject", Key: c05MustRejectKey(input["zoo"]), Input: input, Expect: "the validator refuses the events of this value (malformed media type / time that compact_time does not validate)",
 			Got: "accepted", Note: fmt.Sprintf("%s :: %T :: events %s", label, root, c05Short(evsString(r.Evs), 400))})
 	}
 	if feat != "" {
@@ -3100,6 +3152,13 @@ func c05Record(c *Ctx, cf *caseFile, label string, root interface{}, kc *c05Cfg,
 		c.Sample(map[string]string{"label": label, "cfg": kc.String(), "type": fmt.Sprintf("%T", root), "events": c05Short(evsString(r.Evs), 300)})
 	}
 	return r
+}
+
+func c05MustRejectKey(zoo string) string {
+	if strings.HasPrefix(zoo, "time-") {
+		return "C05/rules-accept/invalid-time"
+	}
+	return "C05/rules-accept/malformed-media-type"
 }
 
 func c05Short(s string, n int) string {
@@ -3174,7 +3233,7 @@ func c05Random(sub int64, defect bool) (root interface{}, kc *c05Cfg, interior b
 }
 
 func runC05(c *Ctx) {
-	c.Rep.Rule = "random values of random types (reflect.StructOf structs with ce tags, slices, arrays, maps, pointers with sharing, interfaces, typed arrays, bool slices, library types, Node, Edge), depth <= 3, each with a random iterator configuration (field-name style, default omit behaviour, record types chosen among the struct types of the value, recursion support 1/3 with cycles); one third of the random cases may contain shapes of the open defect classes (edges, signalling float32 NaNs, embedded structs whose field names are chosen without regard to the names above them); two random struct types in five embed structs 1-6 levels deep (one or two embedded structs per level, at any position, flattened field names kept distinct); with recursion support two cases in three (one in four without) reuse finished pointers / slices / maps and point into the middle of finished objects (address of a struct field, of the first element of an array or slice: same address as the enclosing object, another type); plus a zoo of hand-written values (bool slices of every length around byte boundaries, edges, records, omit tags on every kind, shared pointers, cycles, slices sharing a base; embedded structs: chains of every depth 0-6 with the embedded struct first / in the middle / last and 1-3 innermost fields of equal or mixed types, binary trees of embeddings of depth 1-4, named chains, all as maps and as records; flattened fields that go by one name (an outer field shadowing an embedded struct's field at embedding depth 1-5, a `name=` tag repeating one, names that fall together in snake case only, two levels using one name, two embedded siblings with a field X) and exported fields promoted through an embedded struct whose type name is lower-case (first / middle / last, below an exported embedding, with an exported embedding below it, tagged, omitted as a control) - both open findings; objects of different types at one address under recursion support: every pair out of struct / first field / first field of that / its first int, pointer to array / slice of it / first element, slice / first element, zero-size objects, in three orders of occurrence, in lists, typed fields and maps; media types of every allowed character class, and malformed ones whose events the validator has to refuse) under 2-5 configurations each; a case is trivial when the document is only nil, a bool or an integer; distinct = distinct (label, configuration, event stream)"
+	c.Rep.Rule = "random values of random types (reflect.StructOf structs with ce tags, slices, arrays, maps, pointers with sharing, interfaces, typed arrays, bool slices, library types, Node, Edge), depth <= 3, each with a random iterator configuration (field-name style, default omit behaviour, record types chosen among the struct types of the value, recursion support 1/3 with cycles); one third of the random cases may contain shapes of the open defect classes (edges, signalling float32 NaNs, embedded structs whose field names are chosen without regard to the names above them); two random struct types in five embed structs 1-6 levels deep (one or two embedded structs per level, at any position, flattened field names kept distinct); with recursion support two cases in three (one in four without) reuse finished pointers / slices / maps and point into the middle of finished objects (address of a struct field, of the first element of an array or slice: same address as the enclosing object, another type); plus a zoo of hand-written values (bool slices of every length around byte boundaries, edges, records, omit tags on every kind, shared pointers, cycles, slices sharing a base; embedded structs: chains of every depth 0-6 with the embedded struct first / in the middle / last and 1-3 innermost fields of equal or mixed types, binary trees of embeddings of depth 1-4, named chains, all as maps and as records; flattened fields that go by one name (an outer field shadowing an embedded struct's field at embedding depth 1-5, a `name=` tag repeating one, names that fall together in snake case only, two levels using one name, two embedded siblings with a field X) and exported fields promoted through an embedded struct whose type name is lower-case (first / middle / last, below an exported embedding, with an exported embedding below it, tagged, omitted as a control) - both open findings; objects of different types at one address under recursion support: every pair out of struct / first field / first field of that / its first int, pointer to array / slice of it / first element, slice / first element, zero-size objects, in three orders of occurrence, in lists, typed fields and maps; media types of every allowed character class, and malformed ones whose events the validator has to refuse; times of every type and time-zone form, and compact times that Validate rejects - month 13 / 0, day 30 of February / 0, year 0, hour 24, minute 60, second 61, nanosecond 10^9, latitude / longitude / offset out of range, empty area - whose events the validator has to refuse) under 2-5 configurations each; a case is trivial when the document is only nil, a bool or an integer; distinct = distinct (label, configuration, event stream)"
 	cf := c.Cases("iterate", "CE.Model.Iterate", "iterate_case", "iterate_case_ok")
 	cf.perFile = 100
 
@@ -3232,7 +3291,7 @@ func replayC05(r *Replay) (bool, string) {
 	detail := fmt.Sprintf("%T under %s: events %s", root, kc.String(), c05Short(evsString(run.Evs), 500))
 	if r.Input["must_reject"] == "true" {
 		if run.Rej < 0 && run.Panic == "" {
-			return false, "C05/rules-accept/malformed-media-type: accepted; " + detail
+			return false, c05MustRejectKey(r.Input["zoo"]) + ": accepted; " + detail
 		}
 		return true, detail
 	}
